@@ -19,10 +19,10 @@ import (
 )
 
 type params struct {
-	Seed  int64  `json:"seed"`
-	Index int    `json:"index"`
-	Count int    `json:"count"`
-	Fixed bool   `json:"fixed,omitempty"`
+	Seed  int64 `json:"seed"`
+	Index int   `json:"index"`
+	Count int   `json:"count"`
+	Fixed bool  `json:"fixed,omitempty"`
 }
 
 var Check = &vrt.Check{
